@@ -12,18 +12,36 @@ def canon_value(rng):
 def any_value(rng):
     return rng.choice(["", "a\n", "\nb", "a\n#b", " a", "a\n b", "a\rb", "x"]) if rng.random() < 0.5 else canon_value(rng)
 
+class Names(list):
+    """the names in a generated document; .empty = those of fields whose value is empty
+    ("K:" LF, "K: " LF, "K:" at the end of the text): renaming one makes Entry::new write an
+    empty VALUE token (C04 (4), live_tree)"""
+    empty = ()
+
+def empty_valued(blocks):
+    out = []
+    for b in blocks:
+        if b[0] == "P":
+            out += [f["name"] for f in [b[1]] + [it[1] for it in b[2] if it[0] == "F"] if f["first"] == "" and not f["cont"]]
+    return out
+
 def init_doc(rng, wf=True, parsed_paras=True):
-    """returns (init field, list of names in the doc)"""
+    """returns (init field, Names in the doc)"""
+    init, names, empty = init_doc_e(rng, wf, parsed_paras)
+    names = Names(names); names.empty = list(dict.fromkeys(empty))
+    return init, names
+
+def init_doc_e(rng, wf=True, parsed_paras=True):
     k = rng.random()
     if k < 0.12:
-        return "N", []
+        return "N", [], []
     if k < 0.3:
         d = gen_lossy.ldoc(rng, True)
         d = [[(n, v if v and not v.startswith("\n") else "x") for n, v in p] for p in d]
-        return "F:" + gen_lossy.enc(d), [n for p in d for n, _ in p]
+        return "F:" + gen_lossy.enc(d), [n for p in d for n, _ in p], []
     if k < 0.42 and parsed_paras:
         # a document collected from parsed paragraphs (one-paragraph texts, with or without final line end)
-        texts = []; names = []
+        texts = []; names = []; empty = []
         for _ in range(rng.choice([1, 2, 2, 3])):
             for _try in range(8):
                 blocks = [b for b in gen_grammar.gen_struct_doc(rng) if b[0] == "P"][:1]
@@ -31,18 +49,33 @@ def init_doc(rng, wf=True, parsed_paras=True):
             if not blocks: continue
             t = gen_grammar.render(blocks)
             if rng.random() < 0.5 and t.endswith("\n"): t = t[:-1]
-            texts.append(hexs(t)); names += gen_grammar.all_names(blocks)
+            texts.append(hexs(t)); names += gen_grammar.all_names(blocks); empty += empty_valued(blocks)
         if texts:
-            return "P:" + ";".join(texts), names
+            return "P:" + ";".join(texts), names, empty
     if wf:
         blocks = gen_grammar.gen_struct_doc(rng)
-        return "T:" + hexs(gen_grammar.render(blocks)), gen_grammar.all_names(blocks)
+        if blocks and rng.random() < 0.15:
+            # make sure fields without a value are there: "K:" / "K: " / "K:\t", also as the unterminated last line
+            for b in blocks:
+                if b[0] == "P":
+                    for f in [b[1]] + [it[1] for it in b[2] if it[0] == "F"]:
+                        if rng.random() < 0.5: f["first"] = ""; f["cont"] = []
+        return "T:" + hexs(gen_grammar.render(blocks)), gen_grammar.all_names(blocks), empty_valued(blocks)
     t, _ = gen.gen_doc(rng)
     if rng.random() < 0.5:
         for _ in range(rng.choice([1, 2, 3])): t = gen.mutate(rng, t)
-    return "T:" + hexs(t), []
+    return "T:" + hexs(t), [], []
+
+def rename_old(rng, names, empty):
+    """the field to rename: often one without a value, or one an earlier rename produced (its
+    entry then holds the empty VALUE token)"""
+    r = rng.random()
+    if empty and r < 0.4: return rng.choice(empty)
+    if r < 0.5: return "Renamed"
+    return rng.choice(names)
 
 def history(rng, names, n, para_ops=False, canon=True):
+    empty = list(getattr(names, "empty", ()))
     names = list(dict.fromkeys(names))[:6] + ["Zz", "New-Field"]
     val = canon_value if canon else any_value
     ops = []
@@ -53,11 +86,28 @@ def history(rng, names, n, para_ops=False, canon=True):
         if o == "S": ops.append(f"S:{p}:{hexs(rng.choice(names))}:{hexs(val(rng))}")
         elif o == "I": ops.append(f"I:{p}:{hexs(rng.choice(names))}:{hexs(val(rng))}")
         elif o == "R": ops.append(f"R:{p}:{hexs(rng.choice(names))}")
-        elif o == "N": ops.append(f"N:{p}:{hexs(rng.choice(names))}:{hexs(rng.choice(names + ['Renamed']))}")
+        elif o == "N": ops.append(f"N:{p}:{hexs(rename_old(rng, names, empty))}:{hexs(rng.choice(names + ['Renamed']))}")
         elif o == "A": ops.append("A")
         elif o == "J": ops.append(f"J:{rng.choice([0, 0, 1, 2, 3, 5])}")
         else: ops.append(f"D:{rng.choice([0, 0, 1, 2, 3, 5])}")
     return " ".join(ops) if ops else "-"
+
+def corpus_cases():
+    """renames of fields without a value: first field, "K: ", unterminated last line, value only on
+    continuation lines (not empty), rename again through the new entry, then set/remove/insert around it"""
+    h = hexs
+    T = lambda s: "T:" + h(s)
+    N = lambda p, a, b: f"N:{p}:{h(a)}:{h(b)}"
+    return [
+        ("r0", [T("A:\nB: 1\n"), N(0, "A", "C")]),
+        ("r1", [T("A: \n"), N(0, "A", "C")]),
+        ("r2", [T("A:"), N(0, "A", "C")]),
+        ("r3", [T("A:\n x\n"), N(0, "A", "C")]),
+        ("r4", [T("A:\nB: 1\n"), " ".join([N(0, "A", "C"), N(0, "C", "D"), f"S:0:{h('E')}:{h('e')}", f"R:0:{h('B')}", N(0, "D", "F"), f"S:0:{h('F')}:{h('f')}"])]),
+        ("r5", [T("B: 1\nA:"), N(0, "A", "C") + f" I:0:{h('E')}:{h('e')}"]),
+        ("r6", [T("B: 1\nA: \t"), N(0, "A", "C") + f" I:0:{h('E')}:{h('e')}"]),
+        ("r7", [T("# c\nB: 1\n# d\nA:\n\nA:\nA: 2"), " ".join([N(1, "A", "C"), N(0, "A", "A"), f"R:1:{h('A')}", N(1, "C", "B")])]),
+    ]
 
 def edit_cases(n, rng, prefix, para_ops=False, wf=True, canon=True):
     cases = []
